@@ -9,7 +9,9 @@ open Pk.Mgr Pk.Props.MgrReach Pk.Proofs.MgrTruth Pk.Proofs.MgrTags
 theorem job_origin (s : St) (e : Ev) (st : Started) (hr : Reach s) (hev : C09.EvOK s e)
     (jn : String) (snap : Tag) (held : List Nat) (hj' : (step s e st).1.jTag = some (jn, snap, held)) :
     s.jTag = some (jn, snap, held) ∨
-    ∃ ot, sget (step s e st).1.tags jn = some ot ∧ Attrs ot = Attrs snap := by
+    (∃ ot, sget (step s e st).1.tags jn = some ot ∧ Attrs ot = Attrs snap) ∨
+    -- CHANGED (dropped): `delTag` may start a job for the tag it then deletes
+    (∃ t, sget s.tags jn = some t ∧ Attrs t = Attrs snap) := by
   by_cases hst : (∃ j, s.jTag = some j) ∧ ∀ n r, e ≠ .tagDone n r
   · obtain ⟨⟨j, hj⟩, hne⟩ := hst
     have htag : s.tag = true := hr.jobsWF.1.2 (by rw [hj]; rfl)
@@ -34,9 +36,15 @@ theorem job_origin (s : St) (e : Ev) (st : Started) (hr : Reach s) (hev : C09.Ev
       intro n r he jn' snap' held' hj
       subst he
       exact hev jn' snap' held' hj
-    obtain ⟨ot, hot, _, _, _, e3, e4, e1, e2, _, _, _, e5⟩ :=
-      job_started s e st jn snap held hr.tagsWF hr.jobsWF.1 hev' h0 hj'
-    exact ⟨ot, hot, attrs_mk e1 e2 e3 e4 e5⟩
+    have href : ∀ name' t', e = .delTag name' → sget s.tags name' = some t' → t'.refBy = [] →
+        ∀ n t, sget s.tags n = some t → name' ∉ t.refs := by
+      intro name' t' _ ht' hrb n t ht hmem
+      have := hr.refByWF (n, t) (Pk.Proofs.MgrConv.sget_mem _ _ _ ht) name' hmem t' ht'
+      rw [hrb] at this; cases this
+    rcases job_started s e st jn snap held hr.tagsWF hr.uncBounded href hr.jobsWF.1 hev' h0 hj' with
+      ⟨ot, hot, _, _, _, e3, e4, e1, e2, e5, _⟩ | ⟨_, _, t, ht, e1, e2, e3, e4, e5⟩
+    · exact Or.inl ⟨ot, hot, attrs_mk e1 e2 e3 e4 e5⟩
+    · exact Or.inr ⟨t, ht, attrs_mk e1 e2 e3 e4 e5⟩
 
 theorem genInv_step (s : St) (e : Ev) (st : Started) (hr : Reach s) (hev : C09.EvOK s e) (h : GenInv s) :
     GenInv (step s e st).1 := by
@@ -51,9 +59,10 @@ theorem genInv_step (s : St) (e : Ev) (st : Started) (hr : Reach s) (hev : C09.E
     · rw [(attrs_eq ha).2.2.2.2]; exact Nat.lt_of_lt_of_le (h.2.1 n snap held hj) hle
   refine ⟨part1, ?_, ?_⟩
   · intro jn snap held hj'
-    rcases job_origin s e st hr hev jn snap held hj' with hj | ⟨ot, hot, ha⟩
+    rcases job_origin s e st hr hev jn snap held hj' with hj | ⟨ot, hot, ha⟩ | ⟨t, ht, ha⟩
     · exact Nat.lt_of_lt_of_le (h.2.1 jn snap held hj) hle
     · rw [← (attrs_eq ha).2.2.2.2]; exact part1 jn ot hot
+    · rw [← (attrs_eq ha).2.2.2.2]; exact Nat.lt_of_lt_of_le (h.1 jn t ht) hle
   · intro n1 t1 n2 t2 h1 h2 hg
     rcases gen_origin s e st hev n1 t1 h1 with ⟨u1, hu1, g1⟩ | ⟨m1, u1, he1, hu1, g1, hgone1⟩ | ⟨c1, d1, f1, he1, g1⟩ <;>
     rcases gen_origin s e st hev n2 t2 h2 with ⟨u2, hu2, g2⟩ | ⟨m2, u2, he2, hu2, g2, hgone2⟩ | ⟨c2, d2, f2, he2, g2⟩
@@ -94,9 +103,10 @@ theorem tagFeat_step (s : St) (e : Ev) (st : Started) (hr : Reach s) (hev : C09.
     · exact tagFeat_congr ha (h.2 n snap held hj)
   refine ⟨part1, ?_⟩
   intro jn snap held hj'
-  rcases job_origin s e st hr hev jn snap held hj' with hj | ⟨ot, hot, ha⟩
+  rcases job_origin s e st hr hev jn snap held hj' with hj | ⟨ot, hot, ha⟩ | ⟨t, ht, ha⟩
   · exact h.2 jn snap held hj
   · exact tagFeat_congr ha.symm (part1 jn ot hot)
+  · exact tagFeat_congr ha.symm (h.1 jn t ht)
 
 theorem fTags_254 {x : Nat} (h : x &&& fTags ≠ 0) : x &&& (255 - fID) ≠ 0 := by
   intro h0
